@@ -129,6 +129,8 @@ impl ClientLoop {
 //@|        r is Ok ==> old(request).details.outcome() is None ==> final(request).details.outcome() matches Some(Ok(_)),
 //@|        r is Err ==> final(request).details.outcome() == old(request).details.outcome(),
 //@|        !(r matches Err(RequestError::Shutdown)) && !(r matches Err(RequestError::NoConnection)),
+//@|        // [C10] "timeout" is reported only when no read of the connection failed while the reply was awaited: an I/O error is never turned into a timeout
+//@|        r matches Err(RequestError::ResponseTimeout) ==> final(io).read_errs == old(io).read_errs,
 //@loop 0|            invariant self.wf(), self.same_config(old(self)), self.tx_id == old(self).tx_id, self.timeout_counter == old(self).timeout_counter,
 //@loop 0|                *request == *old(request),
 //@loop 0|                io.sent.len() == old(io).sent.len() + 1 && io.sent.subrange(0, old(io).sent.len() as int) =~= old(io).sent
@@ -136,7 +138,7 @@ impl ClientLoop {
 //@loop 0|                         FrameHeader { destination: crate::common::frame::FrameDestination::UnitId(old(request).id), tx_id: Some(tx_id) },
 //@loop 0|                         crate::common::function::spec_fc_value(old(request).details.spec_function()), &old(request).details),
 //@loop 0|                // [C12] while the reply is awaited the clock never passes (transmission instant + the request's own timeout)
-//@loop 0|                clk__.t <= t_send + crate::nanos(request.timeout),
+//@loop 0|                clk__.t <= t_send + crate::nanos(request.timeout), io.read_errs == old(io).read_errs,
 //@loop 0|            ensures response.wf(),
 //@loop 0|                // [C11] a reply whose transaction id differs from the outstanding request's never becomes its result
 //@loop 0|                response.header.tx_id matches Some(t) ==> t == tx_id,
